@@ -14,7 +14,7 @@ func init() {
 	register(&propDef{
 		ID:      "C01",
 		Level:   "other",
-		Explain: "Structure of the pipeline registry reply -> tag filter -> health filter -> route commands -> table, decided on every path. Every site is found by its ROLE (what it calls, reads, stores, returns) inside a region (an entry function, the helpers it calls, its closures), not by the name or the shape of the function that contains it today. (W1) every text sent on the chan string parameter of the health watcher (the function that queries Health().State) derives - through helpers, parameters, merges, appends, slices.* - from the list of checks of a Health().State reply, passing on EVERY path a stage that looks at HealthCheck.ServiceTags (tag filter) and a stage that looks at HealthCheck.Status (health filter) before it enters the builder (the function that turns the list into the text; a filter may also be the only use of the builder's parameter); nothing else (constants, fields, other lists) flows in. (W2) a value carried across the iterations of a loop that issues the query is the index / the query options, or it influences neither what is sent nor whether it is sent; the only conditions that decide whether the text of a snapshot is sent are verdicts on the error of the query. (W3) every cycle of the Consul watch loops is paced: on every path from the loop head to a query the WaitIndex of its options is set to the carried index advanced from the reply - carried by a variable of the loop or by a memory cell that outlives a round (a field of a cursor / watcher struct, a captured variable) into which a value derived from the reply is stored - (the options may be built by a helper, the query may be wrapped by helpers that take the index as a parameter or keep it themselves) or the path sleeps (poll mode); the edge on which the query's error is known (nil test or the verdict of a helper) sleeps before the next round. (F1) in the health filter (the stage that looks at Status, with the helpers it calls): the edge that completes each exclusion (serfHealth critical, _node_maintenance, _service_maintenance:<id> critical, on the same node) does not lead to the append of the instance within the current iteration - if the edge is in a helper, for the values the helper returns from there; exploring the filter under the ASSUMPTION 'the accepted-status counter is 0', 'strict mode and total != passing', 'the instance's ServiceID is empty / its CheckID is serfHealth, _node_maintenance, _service_maintenance:x' (branches decided by the assumption are pruned, boolean helpers are evaluated under it) never reaches the append. (F2) the accepted-status counter is incremented only under same node, same service id and a test of the check's Status against the accepted list; the total counter under same node and same service id. (F3) exploring the tag filter under the assumption 'CheckID is serfHealth / _node_maintenance / _service_maintenance:x' every path of an iteration appends the check (slices.DeleteFunc: the drop function returns false). (K1) the key under which the builder records passing instances (map update keyed by health check fields) and the key looked up per catalog entry (map lookup keyed by catalog service fields, same map type) have the same shape Node \".\" ServiceID, key helpers looked through. (M1) the list joined into the text the builder returns is sorted on every path to the join (in place, by a sorting helper, or before the call of a rendering helper). (M2) goroutines started by the builder do not write variables they share unless they hold a mutex. (B1) the updater (the innermost function around the select over the channels of WatchServices() and WatchManual() whose region - helpers, methods, methods called through an interface - calls route.NewTable): the buffer (or text) parsed by route.NewTable is reset (or allocated for this round, or freshly made from a concatenation / Sprintf / Join / the String() of a builder), then receives the service text, then the manual text, and nothing else that is not a constant; the buffer, the texts and the channels are followed by an object- and field-sensitive tracer through locals, parameters and receivers (resolved at the call sites), fields of state structs (by value, by pointer, made by a constructor), arrays and maps with constant indices, captured variables, results of helpers. (B2) from the instruction that receives the update (the select, or the call that leads to it) the loop head - without a loop in the updater: its return - is not reachable without (re)building the candidate text. Not decided: Consul's own semantics, quiescence, and the 'if and only if' over registry histories beyond this per-snapshot structure.",
+		Explain: "Structure of the pipeline registry reply -> tag filter -> health filter -> route commands -> table, decided on every path. Every site is found by its ROLE (what it calls, reads, stores, returns) inside a region (an entry function, the helpers it calls, its closures), not by the name or the shape of the function that contains it today. A call into the Consul client is a static call of a method of the api package or a call through a narrow interface of the repository that an api type (*api.Health, *api.KV, *api.Catalog) implements. (W1) every text sent on the chan string parameter of the health watcher (the function that queries Health().State) derives - through helpers, parameters, merges, appends, slices.* - from the list of checks of a Health().State reply, passing on EVERY path a stage that looks at HealthCheck.ServiceTags (tag filter) and a stage that looks at HealthCheck.Status (health filter) before it enters the builder (the function that turns the list into the text; a filter may also be the only use of the builder's parameter); nothing else (constants, fields, other lists) flows in. (W2) a value carried across the iterations of a loop that issues the query is the index / the query options, or it influences neither what is sent nor whether it is sent; the only conditions that decide whether the text of a snapshot is sent are verdicts on the error of the query. (W3) every cycle of the Consul watch loops is paced: on every path from the loop head to a query the WaitIndex of its options is set to the carried index advanced from the reply - carried by a variable of the loop or by a memory cell that outlives a round (a field of a cursor / watcher struct, a captured variable) into which a value derived from the reply is stored - (the options may be built by a helper, the query may be wrapped by helpers that take the index as a parameter - also as one edge of a merge with a constant of the poll branch -, that are given the options themselves, or that keep the index themselves; an index taken from the results of a wrapper counts as advanced only if the wrapper puts something of its query's reply into that result) or the path sleeps (poll mode); the edge on which the query's error is known (nil test or the verdict of a helper) sleeps before the next round. (F1) in the health filter (the stage that looks at Status, with the helpers it calls): the edge that completes each exclusion (serfHealth critical, _node_maintenance, _service_maintenance:<id> critical, on the same node) does not lead to the append of the instance within the current iteration - if the edge is in a helper, for the values the helper returns from there; exploring the filter under the ASSUMPTION 'the accepted-status counter is 0', 'strict mode and total != passing', 'the instance's ServiceID is empty / its CheckID is serfHealth, _node_maintenance, _service_maintenance:x' (branches decided by the assumption are pruned, boolean helpers are evaluated under it) never reaches the append. (F2) the accepted-status counter is incremented only under same node, same service id and a test of the check's Status against the accepted list; the total counter under same node and same service id. (F3) exploring the tag filter under the assumption 'CheckID is serfHealth / _node_maintenance / _service_maintenance:x' every path of an iteration appends the check (slices.DeleteFunc: the drop function returns false). (K1) the key under which the builder records passing instances (map update keyed by health check fields) and the key looked up per catalog entry (map lookup keyed by catalog service fields, same map type) have the same shape Node \".\" ServiceID, key helpers looked through. (M1) the list joined into the text the builder returns (strings.Join, or a hand-written join: the String() of a local strings.Builder / bytes.Buffer into which the elements of the list are written, also by a helper that is given the builder) is sorted on every path to the join (in place, by a sorting helper, or before the call of a rendering helper). (M2) goroutines started by the builder do not write variables they share unless they hold a mutex. (B1) the updater (the innermost function around the select over the channels of WatchServices() and WatchManual() whose region - helpers, methods, methods called through an interface - calls route.NewTable): the buffer (or text) parsed by route.NewTable is reset (or allocated for this round, or freshly made from a concatenation / Sprintf / Join / the String() of a builder), then receives the service text, then the manual text, and nothing else that is not a constant; the buffer, the texts and the channels are followed by an object- and field-sensitive tracer through locals, parameters and receivers (resolved at the call sites), fields of state structs (by value, by pointer, made by a constructor), arrays and maps with constant indices, captured variables, results of helpers. (B2) from the instruction that receives the update (the select, or the call that leads to it) the loop head - without a loop in the updater: its return - is not reachable without (re)building the candidate text. Not decided: Consul's own semantics, quiescence, and the 'if and only if' over registry histories beyond this per-snapshot structure.",
 		Run:     runC01,
 		Trusted: []string{"hashicorp/consul/api returns the health state / catalog of the agent's datacenter; blocking queries honour WaitIndex", "sort.Sort / slices.Sort* order the slice", "slices.DeleteFunc removes exactly the elements for which the function returns true"},
 		Mutants: c01SelectMutants(append([]mutant{
@@ -39,7 +39,7 @@ func init() {
 			{Name: "manual text before service text", File: "main.go", Old: "\t\t\ttableBuffer.WriteString(svccfg)\n\t\t\ttableBuffer.WriteString(\"\\n\")\n\t\t\ttableBuffer.WriteString(mancfg)", New: "\t\t\ttableBuffer.WriteString(mancfg)\n\t\t\ttableBuffer.WriteString(\"\\n\")\n\t\t\ttableBuffer.WriteString(svccfg)", Expect: "C01.B1"},
 			{Name: "buffer not reset", File: "main.go", Old: "\t\t\ttableBuffer.Reset()\n", New: "", Expect: "C01.B1"},
 			{Name: "benign: exclusion tests in switch form", File: "registry/consul/passing.go", Old: "\t\t\t\tif c.CheckID == \"_node_maintenance\" {", New: "\t\t\t\tif id := c.CheckID; id == \"_node_maintenance\" {", Expect: ""},
-		}, append(append([]mutant{}, c01MoreMutants...), c01Round2Mutants...)...)),
+		}, append(append(append([]mutant{}, c01MoreMutants...), c01Round2Mutants...), c01Round5Mutants...)...)),
 	})
 }
 
@@ -60,8 +60,11 @@ func c01SelectMutants(all []mutant) []mutant {
 			}
 			continue
 		}
-		if strings.Contains(m.Name, want) || strings.Contains(m.File, want) {
-			out = append(out, m)
+		for _, alt := range strings.Split(want, "|") {
+			if alt != "" && (strings.Contains(m.Name, alt) || strings.Contains(m.File, alt)) {
+				out = append(out, m)
+				break
+			}
 		}
 	}
 	return out
@@ -132,7 +135,7 @@ func c01Debug(c *Ctx) {
 
 func c01IsStateInstr(i ssa.Instruction) bool {
 	call, ok := i.(*ssa.Call)
-	return ok && calleeName(&call.Call) == "(*"+apiPkg+".Health).State"
+	return ok && c01CalleeHas(&call.Call, func(n string) bool { return n == "(*"+apiPkg+".Health).State" })
 }
 
 func c01IsTextChan(t types.Type) bool {
@@ -542,6 +545,9 @@ func (p *c01Pipe) provLoad(x *ssa.UnOp, path string, fr *c01Frame, depth int, re
 				if sv.path == "" && sv.st.Parent() == x.Parent() && dominatesInstr(sv.st, x) {
 					fresh = true // written in this round, on every path to the load
 				}
+				if sv.path == "" && !fresh && c01WrittenEarlierInRound(sv.st, x, loops) {
+					fresh = true // the same, store and load in helpers that the round calls one after the other
+				}
 			}
 		}
 		if !fresh {
@@ -560,6 +566,53 @@ func (p *c01Pipe) provLoad(x *ssa.UnOp, path string, fr *c01Frame, depth int, re
 		}
 	}
 	return out
+}
+
+// c01WrittenEarlierInRound: in a loop that takes the snapshots, every instruction of the body that leads to the load ld
+// (the load itself, the call of a helper that may execute it) is dominated by an instruction of the body that performs
+// the store st on all its paths (the store itself, the call of a helper that must execute it): the steps of a round are
+// methods that hand the list over through a field of the watcher.
+func c01WrittenEarlierInRound(st *ssa.Store, ld *ssa.UnOp, loops map[*ssa.Function][]*loop) bool {
+	mustSt := liftMust(func(i ssa.Instruction) bool { return i == ssa.Instruction(st) }, 2)
+	mayLd := liftMay(func(i ssa.Instruction) bool { return i == ssa.Instruction(ld) })
+	for fn, ls := range loops {
+		for _, l := range ls {
+			var stores, loads []ssa.Instruction
+			for _, b := range fn.Blocks {
+				if !l.Body[b] {
+					continue
+				}
+				for _, in := range b.Instrs {
+					if _, isGo := in.(*ssa.Go); isGo {
+						continue
+					}
+					if mustSt(in) {
+						stores = append(stores, in)
+					}
+					if mayLd(in) {
+						loads = append(loads, in)
+					}
+				}
+			}
+			if len(loads) == 0 || len(stores) == 0 {
+				continue
+			}
+			all := true
+			for _, li := range loads {
+				ok := false
+				for _, si := range stores {
+					if si != li && dominatesInstr(si, li) {
+						ok = true
+					}
+				}
+				all = all && ok
+			}
+			if all {
+				return true
+			}
+		}
+	}
+	return false
 }
 
 func c01ParentOf(v ssa.Value) *ssa.Function {
